@@ -17,7 +17,7 @@ import urllib.parse
 VERIF = os.path.dirname(os.path.dirname(os.path.abspath(__file__)))
 REPO = os.environ.get("VERIF_REPO", "/repo")
 BUILD = os.path.join(VERIF, ".build")
-TARGET = os.path.join(VERIF, ".target")
+TARGET = os.environ.get("VERIF_TARGET", os.path.join(VERIF, ".target"))
 SEAM = os.path.join(BUILD, "libsimfs.so")
 FCLONES = os.path.join(TARGET, "debug", "fclones")
 SHM = "/dev/shm/fclones-sim"
